@@ -48,6 +48,8 @@ type Env struct {
 	freshHi Term
 	qdepth  int
 	where   string
+	pats    *[]string       // trigger candidates of the innermost quantifier
+	qnames  map[string]bool // its bound variable names
 }
 
 func (env *Env) fail(format string, a ...interface{}) {
@@ -327,8 +329,28 @@ func (env *Env) eval(e *E) SV {
 		}
 		sub := env.sub(vars)
 		sub.qdepth++
+		var pats []string
+		sub.pats = &pats
+		sub.qnames = map[string]bool{}
+		for _, q := range e.QVars {
+			sub.qnames[env.term(vars[q.Name]).S] = true
+		}
 		body := sub.ex.evalBool(sub, e.Args[0])
-		return SV{V: Scalar{Term{fmt.Sprintf("(%s (%s) %s)", e.Op, strings.Join(decl, " "), body.S), SBool}}, T: types.Typ[types.Bool]}
+		bs := body.S
+		if e.Op == "forall" && len(e.QVars) == 1 && len(pats) > 0 {
+			// explicit triggers: element reads indexed exactly by the bound
+			// variable (robust E-matching for pointwise content clauses)
+			seen := map[string]bool{}
+			var ps []string
+			for _, p := range pats {
+				if !seen[p] {
+					seen[p] = true
+					ps = append(ps, ":pattern ("+p+")")
+				}
+			}
+			bs = "(! " + bs + " " + strings.Join(ps, " ") + ")"
+		}
+		return SV{V: Scalar{Term{fmt.Sprintf("(%s (%s) %s)", e.Op, strings.Join(decl, " "), bs), SBool}}, T: types.Typ[types.Bool]}
 	}
 	env.fail("cannot evaluate %s %q", e.Op, e.Name)
 	return SV{}
@@ -601,6 +623,9 @@ func (env *Env) evalIndex(e *E) SV {
 		es := sortOf(u.Elem())
 		m := env.heap(memName(es), SArray(SRef, SArray(SBV(64), es)))
 		v := Select(Select(m, SlBase(at)), BVAdd(SlOff(at), i))
+		if env.pats != nil && env.qnames[i.S] {
+			*env.pats = append(*env.pats, v.S)
+		}
 		if pt, ok := u.Elem().Underlying().(*types.Pointer); ok {
 			return SV{V: PtrV{Base: v, Root: pt.Elem()}, T: u.Elem()}
 		}
@@ -608,7 +633,11 @@ func (env *Env) evalIndex(e *E) SV {
 	case *types.Basic:
 		if u.Info()&types.IsString != 0 {
 			i := env.asBV(env.eval(e.Args[1]), 64)
-			return SV{V: Scalar{StrAt(env.term(a), i)}, T: types.Typ[types.Uint8]}
+			v := StrAt(env.term(a), i)
+			if env.pats != nil && env.qnames[i.S] {
+				*env.pats = append(*env.pats, v.S)
+			}
+			return SV{V: Scalar{v}, T: types.Typ[types.Uint8]}
 		}
 	case *types.Map:
 		m := env.term(a)
@@ -866,6 +895,13 @@ func (env *Env) evalCall(e *E) SV {
 				env.fail("ret: no call result here")
 			}
 			return *env.s.CurRet
+		case "deref":
+			p := env.eval(args[0])
+			pv, ok := p.V.(PtrV)
+			if !ok {
+				env.fail("deref of non-pointer")
+			}
+			return env.readLoc(pv)
 		case "sameSlice":
 			a, b := env.term(env.eval(args[0])), env.term(env.eval(args[1]))
 			return SV{V: Scalar{And(Eq(SlBase(a), SlBase(b)), Eq(SlOff(a), SlOff(b)), Eq(SlLen(a), SlLen(b)))}, T: boolT}
